@@ -501,7 +501,7 @@ func TestCheck(t *testing.T) {
 				t.Fatalf("%v", err)
 			}
 		})
-		c.Rapid("sample_vs_extended_precision", c.N(1200, 10000), func(t *rapid.T) {
+		c.Rapid("sample_vs_extended_precision", c.N(1200, 40000), func(t *rapid.T) {
 			cs := SCase{ImgW: rapid.IntRange(20, 220).Draw(t, "w"), ImgH: rapid.IntRange(20, 220).Draw(t, "h")}
 			cs.DimX = rapid.IntRange(1, 60).Draw(t, "dimx")
 			cs.DimY = cs.DimX
@@ -674,7 +674,7 @@ func TestCheck(t *testing.T) {
 		c.SetExhaustive("nudge_rules_all_sides", true)
 
 		// edge strips through real sampling (translations)
-		c.Rapid("sampling_edge_strips", c.N(2500, 25000), func(t *rapid.T) {
+		c.Rapid("sampling_edge_strips", c.N(2500, 80000), func(t *rapid.T) {
 			cs := EdgeCase{W: rapid.IntRange(8, 70).Draw(t, "w"), H: rapid.IntRange(8, 70).Draw(t, "h"), Seed: rapid.Uint64().Draw(t, "seed")}
 			cs.Dim = rapid.IntRange(1, 8).Draw(t, "dim")
 			if cs.Dim > cs.W-2 {
